@@ -109,12 +109,43 @@ DSwap(fi, s) ==
   ELSE IF Len(s) = 2 /\ c(1) \in {"H", "V"} /\ c(2) \in {"H", "V"} THEN Sub(s, <<2, 1>>)
   ELSE s
 
+\* box-shadow (one layer): a zero spread, then a zero blur, may be left out (css.go, case Box_Shadow)
+DShadow(fi, s) ==
+  LET hasComma == \E j \in 1..Len(s) : LexOf(fi, s, j) = ","
+      isLen(j) == Len(CtOf(fi, s, j)) = 1 /\ IsLen(CtOf(fi, s, j)[1])
+      zero(j) == IsZeroCT(CtOf(fi, s, j)[1])
+      li == SelectSeq([j \in 1..Len(s) |-> j], isLen)
+      drop(t, k) == [j \in 1..Len(t) - 1 |-> IF j < k THEN t[j] ELSE t[j + 1]]
+      s1 == IF Len(li) = 4 /\ zero(li[4]) THEN drop(s, li[4]) ELSE s
+      n1 == IF Len(li) = 4 /\ zero(li[4]) THEN 3 ELSE Len(li)
+  IN IF hasComma THEN s
+     ELSE IF n1 = 3 /\ zero(li[3]) THEN drop(s1, li[3]) ELSE s1
+\* flex: zero basis / shrink 1 / the keyword forms (css.go, case Flex)
+IdxOfLex(fi, x) == CHOOSE c \in 1..Len(Slot(fi, 1)) : Slot(fi, 1)[c].lex = x
+DFlex(fi, s) ==
+  LET tk(j) == Entry(fi, s, j).toks[1]
+      num(j) == tk(j).k = "num"
+      zero(j) == tk(j).k \in {"num", "pct", "dim"} /\ NumCanon(tk(j).n) = <<>>
+      is(j, x) == LexOf(fi, s, j) = x
+  IN
+  IF Len(s) = 2 /\ num(1) /\ ~num(2) /\ zero(2) THEN Sub(s, <<1>>)
+  ELSE IF Len(s) = 3 /\ num(1) /\ num(2) THEN
+       IF is(3, "auto") /\ is(1, "0") /\ is(2, "1") THEN <<IdxOfLex(fi, "initial")>>
+       ELSE IF is(3, "auto") /\ is(1, "1") /\ is(2, "1") THEN <<IdxOfLex(fi, "auto")>>
+       ELSE IF is(3, "auto") /\ is(1, "0") /\ is(2, "0") THEN <<IdxOfLex(fi, "none")>>
+       ELSE IF is(2, "1") /\ zero(3) THEN Sub(s, <<1>>)
+       ELSE IF zero(3) THEN Sub(s, <<1, 2>>)
+       ELSE s
+  ELSE s
+
 Law(D(_, _)) == (ok /\ Fams[f].kind = "list") => M(f, Toks(f, D(f, seq))) = M(f, Toks(f, seq))
 DesignTrbl == Fams[f].pn \in TRBLProps => Law(DTrbl)
 DesignDrop == InitialsOf(Fams[f].pn) # {} =>
                  ((ok /\ Fams[f].kind = "list") => M(f, Toks(f, DDrop(f, seq, InitialsOf(Fams[f].pn)))) = M(f, Toks(f, seq)))
 DesignPair == Fams[f].pn \in {"background-size", "background-repeat"} => Law(DPair)
 DesignSwap == Fams[f].pn = "background-position" => Law(DSwap)
+DesignShadow == Fams[f].pn = "box-shadow" => Law(DShadow)
+DesignFlex == Fams[f].pn = "flex" => Law(DFlex)
 \* the relation is reflexive on everything that is enumerated (a pass-through is always accepted)
 Reflexive == Complete(f, seq) /\ Fams[f].kind # "sel" =>
                ItemVerdict([t |-> "decl", name |-> <<>>, pn |-> Fams[f].pn, imp |-> FALSE, pre |-> Toks(f, seq)],
